@@ -8,10 +8,10 @@ REG = dict(category="model_checking",
     text="HalfAgg.tla is the draft half-aggregation BIP as implemented (running tagged hash over (r_i, pk_i, m_i), randomizers z_i with z_0 = 1, "
     "s = sum z_i s_i; verification: length = 32(n+1), every r_i lifts, s < n, s*G = sum z_i (R_i + e_i P_i)), on top of Bip340.tla. A HISTORY machine in "
     "C17_HalfAgg.tla takes a sequence of valid signatures through EVERY composition n = n1 + ... + nk of incremental aggregation steps (TLC explores all "
-    "of them: real group n <= 5 quick / 6 thorough, order-13 group over all keys and nonces for n <= 2 and a pool for n = 3) with the invariants 'every "
+    "of them: real group n <= 5 quick / 6 thorough, order-13 group over all key/nonce classes for n = 1 (n <= 2 thorough) and pools for n = 2, 3) with the invariants 'every "
     "schedule holds exactly the one-shot aggregate of what it consumed' and 'the complete aggregate verifies'; every transition is replayed as an "
     "inc_aggregate call and every complete composition is executed by the implementation on its own outputs. Real group: n = 0..8 (0..64 thorough), "
-    "every output buffer length 0..32(n+2), every-bit flips, r_i >= p, off-curve r_i, s >= n literals, lengths not a multiple of 32 and for n+-1, "
+    "every output buffer length 0..32(n+2), bit flips (every 16th bit quick, every bit thorough), r_i >= p, off-curve r_i, s >= n literals, lengths not a multiple of 32 and for n+-1, "
     "reordered keys / messages / pairs, one altered signature, wrong key counts. Order-13 (7/199 thorough) group: every aggregate s is re-encoded as "
     "s + 13k (all small k and the largest ones) and the small-group build must reject each; all (r, s, pk) strings for n = 1 and n = 2 over the "
     "subgroup with a scalar-side characterisation of acceptance as design-level invariant. Library-made aggregates are validated as traces.",
@@ -111,7 +111,7 @@ def run(chk):
     for v in (["std"] if quick else ["std", "verify", "i64", "noasm"]):
         chk.replay(recs, v, "every schedule of incremental aggregation + generated boundary records")
     # T: aggregates made by the library, decided by TLC
-    chk.validate(driver(chk, 24 if quick else 400), MODULE, "C17_trace.cfg", "driver", timeout=3000)
+    chk.validate(driver(chk, 24 if quick else 250), MODULE, "C17_trace.cfg", "driver", timeout=3000)
     return chk.finish(LEVEL,
         "History machine: TLC explores every composition of incremental aggregation steps (invariants: schedule-independent bytes, the aggregate verifies); "
         "each transition and each complete composition is executed on the real API. G: TLC enumerates Cases of C17_HalfAgg.tla (counts, all buffer lengths, "
